@@ -75,7 +75,11 @@ def run_version(args):
                 raised = 1
             await apprig.settle(loop)
             return raised
-        types = list(range(256)) if n >= 256 else list(range(8)) + [rng.randrange(256) for _ in range(max(0, n - 8))]
+        # message types: the defined ones (0..6) make up half of the callbacks, undefined values the rest
+        types = list(range(256)) if n >= 256 else list(range(8)) + [rng.choice((0, 1, 2, 3, 4, 5, 6, rng.randrange(256), rng.randrange(256), rng.randrange(7, 256),
+                                                                                rng.randrange(256), rng.randrange(256), rng.randrange(256), 4))
+                                                                    for _ in range(max(0, n - 8))]
+        prev = None
         for i in range(n):
             ty = types[i % len(types)]
             ln = rng.choice((0, 1, 2, 5, 20, 60, 100))
@@ -85,6 +89,17 @@ def run_version(args):
                   "group": b16(), "apsSeq": b8(), "lqi": rng.choice((0, 1, 127, 128, 255, rng.randrange(256))),
                   "rssi": rng.choice((-128, -1, 0, 127, rng.randrange(-128, 128))), "sender": b16(),
                   "msg": [rng.randrange(256) for _ in range(ln)]}
+            # every callback yields its own packet: repeats of an earlier callback (identical; same sender and APS sequence with another
+            # cluster / payload; the same message under another type) interleaved with other traffic
+            r = rng.random()
+            if prev is not None and r < 0.12:
+                cb = dict(prev)
+            elif prev is not None and r < 0.24:
+                cb = dict(cb, sender=prev["sender"], apsSeq=prev["apsSeq"], type=prev["type"])
+            elif prev is not None and r < 0.30:
+                cb = dict(prev, type=rng.choice((0, 2, 4, 5)))
+            if rng.random() < 0.5 or prev is None:
+                prev = dict(cb)
             extra = {"options": rng.randrange(65536), "bindingIndex": rng.randrange(256), "addressIndex": rng.randrange(256),
                      "eui64": [rng.randrange(256) for _ in range(8)], "timestamp": rng.randrange(2 ** 32)}
             payload, order = encode_incoming(ver, cb, extra)
@@ -125,7 +140,7 @@ def run(ctx: Ctx):
     ctx.evaluations = sum(len(t) for t in traces)
     ctx.distinct_nontrivial = len({str(e["cb"]) + str(e["ver"]) for t in traces for e in t})
     ctx.rule = (f"per protocol version 4..14: {n} incomingMessageHandler callbacks (all small message types plus random ones incl. undefined values; "
-                "payload lengths 0..100; RSSI extremes -128/-1/0/127; random other fields) and trust-centre join callbacks over all status x decision "
+                "payload lengths 0..100; RSSI extremes -128/-1/0/127; random other fields; repeats of earlier callbacks - identical, or sharing sender and APS sequence - interleaved with other traffic) and trust-centre join callbacks over all status x decision "
                 "combinations, encoded byte-level by the harness's own encoder in the version's field order; distinct = distinct (version, callback)")
     ctx.add_sample(traces[0][0])
     ctx.add_sample(next(e for e in traces[-1] if e["a"] == "join"))
